@@ -33,14 +33,17 @@ import (
 )
 
 type Fault struct {
-	Kind   string   `json:"kind"`             // sweep | crash | fail | readfail | dberr | cancel
-	K      uint32   `json:"k"`                // mapped onto the operation space of the reference run
-	J      uint32   `json:"j,omitempty"`      // torn-write selector (0 = whole-operation crash)
-	Errno  string   `json:"errno,omitempty"`  // EIO | EACCES | ENOSPC
-	Nested []uint32 `json:"nested,omitempty"` // further crashes during successive resumes
+	Kind   string   `json:"kind"`                // sweep | crash | fail | readfail | dberr | cancel
+	K      uint32   `json:"k"`                   // mapped onto the operation space of the reference run
+	J      uint32   `json:"j,omitempty"`         // torn-write selector (0 = whole-operation crash)
+	Errno  string   `json:"errno,omitempty"`     // EIO | EACCES | ENOSPC
+	Nested []uint32 `json:"nested,omitempty"`    // further crashes during successive resumes
 	Edge   bool     `json:"edge_bias,omitempty"` // crash positions are drawn among the operations of the edge phase
-	Neg    string   `json:"neg,omitempty"`    // negative-resume variant
+	Neg    string   `json:"neg,omitempty"`       // negative-resume variant
 	NegArg uint32   `json:"neg_arg,omitempty"`
+	// NegDB > 0: during the negative resume one database call (the 1+NegDB%8-th) fails, once. A
+	// transient read error on top of changed options / source / files must not turn a refusal into success.
+	NegDB uint32 `json:"neg_db,omitempty"`
 }
 
 type WL struct {
@@ -50,7 +53,7 @@ type WL struct {
 }
 
 var negVariants = []string{"", "", "opt_codec", "opt_level", "opt_shard", "opt_batch", "opt_targets_drop", "opt_targets_add", "opt_targets_reorder", "opt_driver",
-	"opt_salt", "opt_scrub", "src_add_node", "src_del_node", "src_add_rel", "stray_file", "stray_file_graphdir", "frag_flip", "frag_trunc", "frag_remove", "frag_swap"}
+	"opt_salt", "opt_scrub", "opt_scrubcfg", "src_add_node", "src_del_node", "src_add_rel", "stray_file", "stray_file_graphdir", "frag_flip", "frag_trunc", "frag_remove", "frag_swap"}
 
 func gen(r *rand.Rand) WL {
 	w := WL{DB: stor.GenDB(r, 2, 6, 6)}
@@ -64,6 +67,9 @@ func gen(r *rand.Rand) WL {
 	}
 	if r.IntN(4) == 0 {
 		w.Opts.Salt = []string{"pepper", "s@lt with space", "盐"}[r.IntN(3)] // scrub=full
+		if r.IntN(2) == 0 {
+			w.Opts.ScrubCfg = 1 + r.IntN(len(stor.ScrubConfigs)) // with a custom scrub configuration file
+		}
 	}
 	w.Fault.K = r.Uint32()
 	switch x := r.IntN(20); {
@@ -78,6 +84,12 @@ func gen(r *rand.Rand) WL {
 			w.Fault.Nested = append(w.Fault.Nested, r.Uint32())
 		}
 		w.Fault.Neg = negVariants[r.IntN(len(negVariants))]
+		if w.Fault.Neg != "" && r.IntN(3) == 0 {
+			w.Fault.NegDB = 1 + r.Uint32()%64
+		}
+		if w.Opts.Salt != "" && r.IntN(3) == 0 {
+			w.Fault.Neg = []string{"opt_scrubcfg", "opt_scrubcfg", "opt_salt", "opt_scrub"}[r.IntN(4)]
+		}
 		w.Fault.NegArg = r.Uint32()
 		if r.IntN(4) == 0 {
 			// repeated interruptions inside the edge phase of a graph with several edge fragments
@@ -139,15 +151,15 @@ type runner struct {
 	simClass  string
 	simDetail string
 	ref       *retriever.Manifest // manifest of the uninterrupted reference dump
-	expect    stor.DBSpec // what a complete dump must load to (the source, or the scrubbed source)
-	w        WL
-	base     string
-	out      string
-	counters map[string]int
-	hashes   []uint64
-	evals    int
-	refLog   []simos.Op
-	refCalls int
+	expect    stor.DBSpec         // what a complete dump must load to (the source, or the scrubbed source)
+	w         WL
+	base      string
+	out       string
+	counters  map[string]int
+	hashes    []uint64
+	evals     int
+	refLog    []simos.Op
+	refCalls  int
 }
 
 func (r *runner) opts(resume bool) retriever.DumpOptions {
@@ -337,6 +349,17 @@ func (r *runner) applyNegative(neg string, arg uint32, spec *stor.DBSpec, o *ret
 			return false
 		}
 		o.Salt = r.w.Opts.Salt + "x"
+	case "opt_scrubcfg":
+		// the resume brings a scrub configuration file that differs in one respect (rule order, a pattern,
+		// a preserved key), or brings one where there was none
+		if r.w.Opts.Salt == "" {
+			return false
+		}
+		other := 1 + int(arg)%len(stor.ScrubConfigs)
+		if c := r.w.Opts.ScrubCfg; c > 0 {
+			other = (c - 1) ^ 1 + 1 // its neighbour
+		}
+		o.ScrubConfig = strings.NewReader(stor.ScrubConfigs[other-1])
 	case "opt_scrub":
 		if r.w.Opts.Salt == "" {
 			o.Scrub, o.Salt = retriever.ScrubFull, "late-salt"
@@ -528,7 +551,18 @@ func (r *runner) crashRun(k, j int, nested []uint32, neg string, negArg uint32) 
 		}
 	}
 	pre := stor.SnapshotDir(r.out)
-	err, _ := r.dump(ctx, stor.Build(spec), targets, driver, o, simos.Plan{})
+	finalSrc := stor.Build(spec)
+	if negApplied && r.w.Fault.NegDB > 0 {
+		at := 1 + int(r.w.Fault.NegDB)%8
+		finalSrc.Hook = func(_ context.Context, site string) error {
+			if finalSrc.Calls == at {
+				r.counters["negative_resume_with_transient_db_error"]++
+				return fmt.Errorf("%s: %w", site, errInjected)
+			}
+			return nil
+		}
+	}
+	err, _ := r.dump(ctx, finalSrc, targets, driver, o, simos.Plan{})
 	r.evals++
 	r.hashes = append(r.hashes, hash64(fmt.Sprintf("%d|%d|%v|%s|%v|%s", k, j, nested, neg, err == nil, rep.FrozenAt)))
 	if negApplied {
